@@ -605,6 +605,8 @@ MALFORMED_RULES = [
     ('range-to-multi-escape', lambda p: p + '[a-\\d]'),
     ('unescaped-open-bracket-in-class', lambda p: p + '[a[]'),
     ('subtraction-not-closed', lambda p: p + '[a-[b]c]'),
+    ('lone-high-surrogate', lambda p: p + '\ud800a'),
+    ('lone-high-surrogate-in-class', lambda p: p + '[\ud800a]'),
 ]
 # backreference-like escapes are malformed in the schema dialect too, but Xerces answers RuntimeException (finding C11-backref-escape)
 BACKREF_RULES = [('backref-escape', lambda p: p + '\\1'), ('backref-escape-in-group', lambda p: '(' + p + ')\\1')]
